@@ -35,6 +35,27 @@ type config struct {
 	// Prelude: number of Define/Delete cycles on throw-away symbols the scope has already seen,
 	// one-at-a-time, before the goroutines start (long-history configurations only)
 	Prelude int `json:"prelude_define_delete_cycles,omitempty"`
+	// Alias: the shared scope has an external lookup that reads the scope itself (lookup configurations only)
+	Alias bool `json:"alias_lookup_reading_the_scope,omitempty"`
+}
+
+// aliasLookup is an immutable lookup object that READS the scope it is installed on: al_<name> is
+// the value <name> has for that scope. Get and Type call the lookup with no lock held, so a lookup
+// of this kind is a combination of environment operations like any other: it must not block for good.
+type aliasLookup struct{ scope *env.Env }
+
+func (l aliasLookup) Get(s string) (reflect.Value, error) {
+	if strings.HasPrefix(s, "al_") {
+		return l.scope.GetValue(s[3:])
+	}
+	return reflect.Value{}, fmt.Errorf("undefined symbol '%s'", s)
+}
+
+func (l aliasLookup) Type(s string) (reflect.Type, error) {
+	if strings.HasPrefix(s, "AL_") {
+		return l.scope.Type(s[3:])
+	}
+	return nil, fmt.Errorf("undefined type '%s'", s)
 }
 
 var typePool = map[string]reflect.Type{"int64": reflect.TypeOf(int64(0)), "string": reflect.TypeOf(""), "bool": reflect.TypeOf(true)}
@@ -109,13 +130,31 @@ var model = porcupine.Model{
 			}
 			return out == "err", state
 		case "Get":
+			// al_<name> is answered by the alias lookup with the value of <name> (lookup configurations)
+			key := strings.TrimPrefix(in.Key, "al_")
 			want := "err"
-			if v, ok := st.vals[in.Key]; ok {
+			if v, ok := st.vals[key]; ok {
 				want = v
-			} else if v, ok := parentVals[in.Key]; ok {
+			} else if v, ok := parentVals[key]; ok {
 				want = v
 			}
 			return out == want, state
+		case "DefineCell":
+			st.vals[in.Key] = in.Val
+			return out == "ok", encode(st.vals, st.types)
+		case "Addr":
+			// an undefined symbol has no address; a defined one answers a pointer to its value, or an
+			// error when the value bound cannot be addressed (the statement is silent on which values
+			// can: both are accepted)
+			key := strings.TrimPrefix(in.Key, "al_")
+			v, ok := st.vals[key]
+			if !ok {
+				v, ok = parentVals[key]
+			}
+			if !ok {
+				return out == "err", state
+			}
+			return out == "err" || out == "ptr:"+v, state
 		case "Delete", "DeleteGlobal":
 			delete(st.vals, in.Key)
 			return out == "ok", encode(st.vals, st.types)
@@ -127,10 +166,11 @@ var model = porcupine.Model{
 			st.types[in.Key] = in.Val
 			return out == "ok", encode(st.vals, st.types)
 		case "Type":
+			key := strings.TrimPrefix(in.Key, "AL_")
 			want := "err"
-			if v, ok := st.types[in.Key]; ok {
+			if v, ok := st.types[key]; ok {
 				want = v
-			} else if v, ok := parentTypes[in.Key]; ok {
+			} else if v, ok := parentTypes[key]; ok {
 				want = v
 			}
 			return out == want, state
@@ -186,6 +226,20 @@ func execOp(shared *env.Env, o op) string {
 			return "err"
 		}
 		return fmt.Sprint(v)
+	case "DefineCell":
+		// the value is bound as an addressable cell nobody stores to
+		cell := reflect.New(reflect.TypeOf("")).Elem()
+		cell.SetString(o.Val)
+		if shared.DefineValue(o.Key, cell) != nil {
+			return "err"
+		}
+		return "ok"
+	case "Addr":
+		p, err := shared.Addr(o.Key)
+		if err != nil || p.Kind() != reflect.Ptr || p.IsNil() {
+			return "err"
+		}
+		return "ptr:" + fmt.Sprint(p.Elem().Interface())
 	case "Delete":
 		shared.Delete(o.Key)
 		return "ok"
@@ -241,6 +295,9 @@ func run(cfg *config, choose func(step int, enabled []int, cur int) int) executi
 	shared := parent.NewEnv()
 	for k, v := range cfg.Init {
 		shared.Define(k, v)
+	}
+	if cfg.Alias {
+		shared.SetExternalLookup(aliasLookup{shared})
 	}
 	// the past of the scope: symbols that came and went before anything runs concurrently.
 	// Sequentially a Define followed by a Delete leaves no trace, so the model's initial state is cfg.Init.
@@ -342,6 +399,54 @@ func genConfig(c *wk.Case, maxOps int) *config {
 				o.Val = []string{"int64", "string", "bool"}[c.Rng.Intn(3)]
 			case "Type":
 				o.Key = []string{"t1", "t2", "tp"}[c.Rng.Intn(3)]
+			}
+			ops = append(ops, o)
+		}
+		cfg.Gs = append(cfg.Gs, ops)
+	}
+	return cfg
+}
+
+// ---- lookup configurations ----
+//
+// The scope has a lookup object that reads the scope itself, and the operations include Addr
+// (of plain values, of addressable cells, of the parent's symbol, through the lookup) next to
+// Get and Type through the lookup and the writers Define, DefineCell, Set, Delete, DefineType.
+// The oracle is the same as for the short configurations; what these add is the deadlock verdict
+// of the scheduler for operations that keep the scope's lock while they ask the lookup or the parent.
+func genLookupConfig(c *wk.Case, maxOps int) *config {
+	cfg := &config{Init: map[string]string{}, Alias: true}
+	if c.Rng.Intn(2) == 0 {
+		cfg.Init["k1"] = "init1"
+	}
+	ng := 2 + c.Rng.Intn(2)
+	for g := 0; g < ng; g++ {
+		nops := 2 + c.Rng.Intn(maxOps-1)
+		if ng == 3 && nops > 3 {
+			nops = 3
+		}
+		var ops []op
+		for i := 0; i < nops; i++ {
+			k := []string{"Addr", "Addr", "Addr", "Get", "Type", "Define", "DefineCell", "Set", "Delete", "DefineType", "Symbols"}[c.Rng.Intn(11)]
+			if g == 0 && i == 0 {
+				k = "Addr"
+			}
+			o := op{Kind: k}
+			switch k {
+			case "Addr":
+				o.Key = []string{"k1", "k2", "kp", "al_k1", "al_k1", "al_k2", "al_kp"}[c.Rng.Intn(7)]
+			case "Get":
+				o.Key = []string{"k1", "al_k1", "al_k2", "al_kp"}[c.Rng.Intn(4)]
+			case "Type":
+				o.Key = []string{"t1", "AL_t1", "AL_tp"}[c.Rng.Intn(3)]
+			case "Define", "DefineCell", "Set":
+				o.Key = []string{"k1", "k2"}[c.Rng.Intn(2)]
+				o.Val = fmt.Sprintf("g%d.%d", g, i)
+			case "Delete":
+				o.Key = []string{"k1", "k2"}[c.Rng.Intn(2)]
+			case "DefineType":
+				o.Key = "t1"
+				o.Val = []string{"int64", "string", "bool"}[c.Rng.Intn(3)]
 			}
 			ops = append(ops, o)
 		}
@@ -732,12 +837,23 @@ func main() {
 			if c.Tier == "thorough" {
 				maxOps, maxSched, nRandom = 4, 12000, 300
 			}
-			if c.Index%8 == 7 {
+			// the cases behind the base range are lookup configurations (numbers as in the plan of cmd/vworker/c13.go)
+			base := 184
+			if c.Tier == "thorough" {
+				base = 9144
+			}
+			if c.Index < base && c.Index%8 == 7 {
 				// one case in eight is a long-history configuration (runLong below)
 				runLong(c, verdicts)
 				return
 			}
-			cfg := genConfig(c, maxOps)
+			var cfg *config
+			if c.Index >= base {
+				cfg = genLookupConfig(c, maxOps)
+				c.Tag("config-alias-lookup")
+			} else {
+				cfg = genConfig(c, maxOps)
+			}
 			kinds := kindsOf(cfg)
 			initState := encode(cfg.Init, map[string]string{})
 			m := model
